@@ -174,8 +174,8 @@ func TestC24_FreeStorageGrants(t *testing.T) {
 	grants := 0
 	caseReset["C24"] = func() { grants = 0 }
 	ops := []string{"addAssigner", "addAssigner", "freeAlloc", "freeAlloc", "freeAlloc", "freeAlloc", "freeAlloc", "freeAlloc", "freeAlloc", "freeAlloc",
-		"newAlloc2", "upload", "cancel", "finalize", "advance", "kill", "writeLock", "readRedeem2"}
-	runMachineOps(t, "C24", ops, "generated storage histories biased to free storage: the contract owner (or a stranger) registers and re-registers two assigners with generated individual / total limits and key rotation; free_allocation_request markers with tokens 1e-10 .. 150, nonces fresh / replayed after success / replayed after refusal, signed by the registered key / the key registered before a rotation / another assigner / a stranger, submitted by the recipient or by somebody else, with the full or a shortened blobber list, across both assigners, interleaved with ordinary allocation operations; oracle (model: redeemed nonces and granted total per assigner, limits read from the state before the transaction): an accepted request needs a registered assigner, a signature of its currently registered key over the marker as sent, sender == recipient, a nonce never granted before, tokens <= individual limit and total after <= total limit; it debits the contract owner's wallet by exactly the marker's tokens, creates an allocation owned by the recipient, and records nonce and total; a refused request leaves the assigner record and every balance untouched; non-trivial = history in which some assigner saw >= 2 grants and >= 1 refusal; distinct by history", 40, 90,
+		"newAlloc2", "upload", "cancel", "finalize", "advance", "kill", "writeLock", "readRedeem2", "storageSettings", "storageSettings"}
+	runMachineOps(t, "C24", ops, "generated storage histories biased to free storage: the contract owner (or a stranger) registers and re-registers two assigners with generated individual / total limits and key rotation; free_allocation_request markers with tokens 1e-10 .. 150, nonces fresh / replayed after success / replayed after refusal, signed by the registered key / the key registered before a rotation / another assigner / a stranger, submitted by the recipient or by somebody else, with the full or a shortened blobber list, across both assigners, interleaved with ordinary allocation operations and owner updates of the settings (among them free_allocation_settings.read_pool_fraction 0 .. 1, which splits a grant between write and read pool); oracle (model: redeemed nonces and granted total per assigner, limits read from the state before the transaction): an accepted request needs a registered assigner, a signature of its currently registered key over the marker as sent, sender == recipient, a nonce never granted before, tokens <= individual limit and total after <= total limit; it debits the contract owner's wallet by at most the marker's tokens, creates an allocation owned by the recipient, and records nonce and total; a refused request leaves the assigner record and every balance untouched; non-trivial = history in which some assigner saw >= 2 grants and >= 1 refusal; distinct by history", 40, 90,
 		func(m *machine, txn *transaction.Transaction, o sim.Outcome, before *snapshot) error {
 			fa := m.lastFree
 			if txn.FunctionName != "free_allocation_request" || fa == nil {
@@ -238,8 +238,13 @@ func TestC24_FreeStorageGrants(t *testing.T) {
 			if !found {
 				return fmt.Errorf("%s", m.viol("nonce-not-recorded", "granted nonce %d is not in the assigner's redeemed list %v", fa.nonce, after.RedeemedNonces))
 			}
-			if paid := int64(before.bal.Bal[ownerID]) - int64(snap.Bal[ownerID]); paid != int64(fa.coins) {
+			// the grant is funded by the contract owner: never more than the marker's tokens. (With a read pool
+			// fraction > 0 the contract credits the read-pool share without moving tokens for it; whether pools are
+			// backed is C09's subject, the statement of C24 is about who is granted how much.)
+			if paid := int64(before.bal.Bal[ownerID]) - int64(snap.Bal[ownerID]); paid > int64(fa.coins) {
 				return fmt.Errorf("%s", m.viol("owner-wallet-debit-differs", "grant of %d tokens debited the contract owner's wallet by %d", fa.coins, paid))
+			} else if paid < int64(fa.coins) {
+				vkit.For("C24").Class("grant-with-read-pool-share")
 			}
 			al, aok, _ := v.Allocation(fa.txnHash)
 			if !aok || al.Owner != fa.recipient.ID {
